@@ -192,9 +192,7 @@ def framePriority (sid : Int) (weight depends : Option Int) (excl : Option Bool)
 
 def settingsFrameOfLocal : CM Frame := do
   let c ← getS
-  match c.localSettings.items? with
-  | none => raise (.py .KeyError)
-  | some items => pure (Frame.settings false items)
+  pure (Frame.settings false c.localSettings.items)
 
 def initiateConnection : CM Unit := do
   connInput .SEND_SETTINGS
